@@ -52,8 +52,10 @@ EXCEPTIONS = [
      'also appends to is NOT covered by this exception - it has to be sorted after the loop (it is serialised into the '
      'generated module)'),
     ('lrpar::cpctplus::simplify_repairs', 'hash::set::HashSet<alloc::vec::Vec<lrpar::parser::ParseRepair', ['extend into an ordered Vec', 'collect into an ordered Vec'],
-     'drains the de-duplication set into a Vec that is then sorted; ties are documented as unordered (C06 fixes only avoid-insert/length order)'),
-    ('lrlex::ctbuilder::CTLexerBuilder::build', 'hash::set::HashSet<alloc::string::String', ['print', 'collect into an ordered Vec', 'passed to'],
+     'drains the de-duplication set into a Vec that is then sorted by (avoid-insert, length); which of several equal-rank '
+     'sequences comes first - and so which one is applied - is deliberately left open upstream (C06 fixes only that partial '
+     'order).  Run-time repair choice, not a build artefact: none of C15\'s numbering / table / generated-code clauses is reached'),
+    ('lrlex::ctbuilder::CTLexerBuilder::build', 'hash::set::HashSet<alloc::string::String', ['print', 'collect into an ordered Vec'],
      'order of warning lines about tokens missing from the lexer (eprintln / cargo:warning); no effect on generated code'),
     ('lrlex::ctbuilder::CTLexerBuilder::build', 'hash::set::HashSet<(alloc::string::String, cfgrammar::span::Span)', ['extend on alloc::vec::Vec<alloc::string::String'],
      'order of warning lines about tokens missing from the parser (the Vec<String> is only printed); no effect on generated code'),
@@ -100,7 +102,9 @@ def top_level_args(t):
     return out
 
 
-def sources(body):
+def sources(body, want=None):
+    """iteration sources; want(type string, hasher kind) -> bool selects the containers (default: std hash containers
+    whose hasher is RandomState)"""
     out = []
     for bb, t in body.calls():
         c = callee_of(t)
@@ -112,7 +116,7 @@ def sources(body):
         h = hasher_of(st)
         if h is None and c['name'] in ('difference', 'union', 'intersection', 'symmetric_difference', 'drain', 'retain'):
             h = hasher_of(st)
-        if h == 'random':
+        if (h == 'random') if want is None else (h is not None and want(st, h)):
             out.append((bb, t, st))
     return out
 
